@@ -10,6 +10,7 @@ import Bita.Proofs.CliRoundtrip
 import Bita.Proofs.CliRoundtripExamples
 import Bita.Proofs.ReaderEnv
 import Bita.Proofs.Options
+import Bita.Proofs.OptionsCompose
 
 namespace Bita.Props.C01
 open Bita Bita.Spec Bita.Proofs
@@ -179,5 +180,59 @@ theorem cli_accepted_options_are_valid (a : Options.CompressArgs) (p : Options.C
     (h : Options.parseCompress a = .ok p) :
     OptsOK p.cmd.opts ↔ Proofs.NotMisuse p.cmd.opts.cfg :=
   Proofs.cli_options_ok_iff a p h
+
+/-- **T2 from the command-line texts.**  `bita compress <options> -i IN ARCHIVE` followed by
+`bita clone <options> ARCHIVE OUT`, for every pair of command lines the option parser accepts
+(`Options.parseCompress` / `Options.parseClone`, the model of src/cli.rs) with a configuration outside
+the misuse set and no `--verify-header`: in any file system where IN exists and ARCHIVE and its temp
+path do not, compress succeeds, and the clone - into a new path, or over a regular file with
+`--force-create` / `--seed-output`, with any `--seed` files that exist - succeeds and leaves exactly
+IN's bytes in OUT, every other path as it was; or a hash collision is exhibited.  `OptsOK`, the temp
+path, the flags and the seed list are no longer hypotheses: they are what the texts parse to. -/
+theorem cli_roundtrip_from_the_command_line (H : Bytes → Bytes) (hH : ∀ x, (H x).length = 64)
+    (comp : Bytes → Bytes) (decomp : Nat → Bytes → Nat → Option Bytes) (hcodec : CodecOK comp decomp)
+    (hne : ∀ x, x ≠ [] → comp x ≠ [])
+    (ca : Options.CompressArgs) (pc : Options.CompressParsed) (hpc : Options.parseCompress ca = .ok pc)
+    (hm : Proofs.NotMisuse pc.cmd.opts.cfg) (inp : String) (hinp : ca.input = some inp)
+    (ka : Options.CloneArgs) (pk : Options.CloneParsed) (hpk : Options.parseClone ka = .ok pk)
+    (harch : ka.archive = ca.output) (hnopin : ka.verifyHeader = none)
+    (fs : Fs) (inode : Node) (hfacts : FactsAsExpected) (hflush : Gen.cliTempFlushedBeforeReturn = true)
+    (hin : fs.get inp = some inode)
+    (hnew : fs.get ca.output = none) (htmp : fs.get (tempPathOf ca.output) = none)
+    (hdistinct : tempPathOf ca.output ≠ ca.output ∧ inp ≠ ca.output ∧ inp ≠ tempPathOf ca.output)
+    (hfit : (createArchive H "cli" comp pc.cmd.opts inode.data).length < 2 ^ 63)
+    (hsrc : inode.data.length < 2 ^ 64) (hcnt : (chunkAll pc.cmd.opts.cfg inode.data).length ≤ 2 ^ 32)
+    (hko : ka.output ≠ ca.output)
+    (hout : fs.get ka.output = none ∨
+      ((ka.force = true ∨ ka.seedOutput = true) ∧ ∃ d, fs.get ka.output = some (.regular d)))
+    (hseeds : ∀ p ∈ ka.seeds, p ≠ "-" → (fs.get p).isSome ∨ p = ca.output) :
+    let r1 := Cli.compress H comp pc.cmd fs
+    let r2 := Cli.clone H decomp pk.cmd r1.fs
+    r1.ok = true ∧
+    ((r2.ok = true ∧ r2.fs.get ka.output = some (.regular inode.data) ∧
+        (∀ p, p ≠ ka.output → p ≠ ca.output → r2.fs.get p = fs.get p)) ∨
+      (∃ c1 ∈ chunkAll pc.cmd.opts.cfg inode.data, ∃ c2 ∈ chunkAll pc.cmd.opts.cfg inode.data,
+        slice inode.data c1.1 c1.2 ≠ slice inode.data c2.1 c2.2 ∧
+        H (slice inode.data c1.1 c1.2) = H (slice inode.data c2.1 c2.2)) ∨
+      (∃ (a : Archive) (cks : List Bytes), Collision H a.hashLength cks ∧ inode.data = cks.flatten)) := by
+  obtain ⟨hco, hct, _⟩ := Proofs.parseCompress_ok ca pc hpc
+  have hci : pc.cmd.input = inp := by rw [Proofs.parseCompress_input ca pc hpc, hinp]; rfl
+  obtain ⟨hkout, hkarch, hkfl, hkseeds, _, hkpin, _⟩ := Proofs.parseClone_ok ka pk hpk
+  have ho : OptsOK pc.cmd.opts := (Proofs.cli_options_ok_iff ca pc hpc).2 hm
+  have hfl : pk.cmd.flags.force = ka.force ∧ pk.cmd.flags.seedOutput = ka.seedOutput := by rw [hkfl]; exact ⟨rfl, rfl⟩
+  have := Proofs.cli_roundtrip H hH comp decomp hcodec hne pc.cmd pk.cmd fs inode hfacts hflush ho
+    (by rw [hci]; exact hin) (by rw [hco]; exact hnew) (by rw [hct]; exact htmp)
+    (by rw [hct, hco, hci]; exact hdistinct) hfit hsrc hcnt
+    (by rw [hkarch, hco]; exact harch) (by rw [hkout, hco]; exact hko)
+    (by rw [hkout, hfl.1, hfl.2]; exact hout) (hkpin hnopin)
+    (by
+      intro p hp
+      rw [hkseeds] at hp
+      have hp' := List.mem_filter.1 hp
+      have hne' : p ≠ "-" := by simpa using hp'.2
+      rw [hco]
+      exact hseeds p hp'.1 hne')
+  rw [hkout, hco] at this
+  exact this
 
 end Bita.Props.C01
